@@ -75,6 +75,32 @@ func genKVCase(t *rapid.T) KVCase {
 		}
 		c.Steps = append(c.Steps, s)
 	}
+	if rapid.IntRange(0, 4).Draw(t, "emptypattern") == 0 {
+		// Targeted region: a handle whose tree holds nothing but tombstones, purged until it is
+		// EMPTY, then touched again (a second purge that removes nothing, a Diff, a Clone)
+		// before the Commit; afterwards the committed state is read back through a re-open.
+		h := rapid.IntRange(0, c.NH-1).Draw(t, "eh")
+		var pat []KVStep
+		for k := 1; k <= c.NKeys; k++ {
+			pat = append(pat, KVStep{Op: "tomb", H: h, Key: k, T: int64(51*1000 + 100 + k)})
+		}
+		if rapid.Bool().Draw(t, "ecommit") {
+			pat = append(pat, KVStep{Op: "commit", H: h})
+		}
+		pat = append(pat, KVStep{Op: "purge", H: h, T: 52000})
+		switch rapid.IntRange(0, 3).Draw(t, "eagain") {
+		case 0:
+			pat = append(pat, KVStep{Op: "purge", H: h, T: rapid.SampledFrom([]int64{1, 51000, 52000, 53000}).Draw(t, "eagaint")})
+		case 1:
+			pat = append(pat, KVStep{Op: "clone", H: h, H2: h})
+		case 2:
+			pat = append(pat, KVStep{Op: "trace", H: h, Key: 1})
+		}
+		pat = append(pat, KVStep{Op: "commit", H: h}, KVStep{Op: "reopen", H: h, Perm: genPerm(t, "eperm")},
+			KVStep{Op: "set", H: h, Key: 1, T: 53001}, KVStep{Op: "commit", H: h}, KVStep{Op: "reopen", H: h, Perm: genPerm(t, "eperm2")})
+		pos := rapid.IntRange(0, len(c.Steps)).Draw(t, "epos")
+		c.Steps = append(append(append([]KVStep{}, c.Steps[:pos]...), pat...), c.Steps[pos:]...)
+	}
 	return c
 }
 
